@@ -144,22 +144,73 @@ Proof.
 Qed.
 
 (* ================= round trip (C01) ================= *)
+(* IS_MSO (hand-written codec): request id, connection, player, user type in range; name and message NUL-free
+   and together no longer than the 128-byte text *)
+Definition mso_indom (vs : list value) (tv : tvalue) : bool :=
+  match vs, tv with
+  | [VN reqi; VU; VN ucid; VN plid; VN ut; VB name], TVText msg =>
+      (reqi <? 256) && (ucid <? 256) && (plid <? 256) && existsb (N.eqb ut) mso_usertypes &&
+      nonul name && nonul msg && Nat.leb (length name + length msg) 128
+  | _, _ => false
+  end.
 Definition pindom (p : pval) : bool :=
   let '(PV ty vs tv) := p in
   match find_kind ty packet_table with
   | Some (KLayout l) => sindom cindom l vs tv
-  | _ => false
+  | Some KMso => mso_indom vs tv
+  | None => false
   end.
+
+Lemma write_aligned_short mx al bs : (0 < al)%nat -> Nat.modulo mx al = 0%nat -> (length bs <= mx)%nat ->
+  write_aligned mx al bs = bs ++ repeat 0 (round_up (length bs) al - length bs).
+Proof.
+  intros Ha Hm Hl. unfold write_aligned. apply firstn_all2.
+  rewrite app_length, repeat_length. pose proof (round_up_ge (length bs) al Ha).
+  pose proof (round_up_le_mult _ _ _ Ha Hm Hl). lia.
+Qed.
+Lemma nonul_app a b : nonul (a ++ b) = nonul a && nonul b.
+Proof. unfold nonul. apply forallb_app. Qed.
+
+Theorem mso_roundtrip vs tv b : mso_indom vs tv = true -> mso_enc vs tv = Ok b -> mso_dec b = Ok (vs, tv, []).
+Proof.
+  unfold mso_indom, mso_enc.
+  destruct vs as [|v1 vs]; [discriminate|]. destruct v1 as [reqi| | |]; try discriminate.
+  destruct vs as [|v2 vs]; [discriminate|]. destruct v2 as [| | |]; try discriminate.
+  destruct vs as [|v3 vs]; [discriminate|]. destruct v3 as [ucid| | |]; try discriminate.
+  destruct vs as [|v4 vs]; [discriminate|]. destruct v4 as [plid| | |]; try discriminate.
+  destruct vs as [|v5 vs]; [discriminate|]. destruct v5 as [ut| | |]; try discriminate.
+  destruct vs as [|v6 vs]; [discriminate|]. destruct v6 as [|name| |]; try discriminate.
+  destruct vs as [|v7 vs]; [|discriminate].
+  destruct tv as [| | |msg]; try discriminate.
+  intros Hd. repeat (apply andb_prop in Hd as [Hd ?]).
+  match goal with H : Nat.leb _ 128 = true |- _ => apply Nat.leb_le in H; rename H into Hlen end.
+  match goal with H : nonul msg = true |- _ => rename H into Hmsg end.
+  match goal with H : nonul name = true |- _ => rename H into Hname end.
+  match goal with H : existsb _ mso_usertypes = true |- _ => rename H into Hut end.
+  rewrite Hd. repeat match goal with H : (_ <? 256) = true |- _ => rewrite H end. rewrite Hut. cbn [andb].
+  intros [= <-]. unfold mso_dec. cbn [app]. rewrite Hut. cbn [negb].
+  assert (Hts : N.of_nat (length name) mod 256 = N.of_nat (length name)) by (apply N.mod_small; lia).
+  rewrite Hts.
+  assert (Hal : (length (name ++ msg) <= 128)%nat) by (rewrite app_length; lia).
+  rewrite (write_aligned_short 128 4 (name ++ msg) ltac:(lia) eq_refl Hal).
+  destruct (N.of_nat (length name) =? 0) eqn:E0.
+  - apply N.eqb_eq in E0. assert (name = []) by (destruct name; [reflexivity|cbn in E0; lia]). subst name. cbn [app].
+    rewrite strip_nul_app_zeros by exact Hmsg. reflexivity.
+  - rewrite Nat2N.id. rewrite <- app_assoc. rewrite (take_app (length name) name _ eq_refl).
+    rewrite (strip_nul_nonul name Hname). rewrite strip_nul_app_zeros by exact Hmsg. reflexivity.
+Qed.
 
 Theorem parse_unparse p body : pindom p = true -> unparse p = Ok body -> parse body = Ok p.
 Proof.
   destruct p as [ty vs tv]. unfold pindom, unparse, parse.
   destruct (find_kind ty packet_table) as [[l|]|] eqn:E; try discriminate.
-  intros Hd. unfold enc_l. destruct (enc_struct cenc l vs tv) as [b| |] eqn:Ee; try discriminate.
-  intros [= <-]. rewrite E. unfold dec_l.
-  pose proof (dec_enc_struct cwidth cenc cdec cindom cdec_total cenc_len c_roundtrip l vs tv b [] Hd) as H.
-  rewrite app_nil_r in H. rewrite H; [reflexivity| |exact Ee].
-  destruct (ltail l); exact I || reflexivity.
+  - intros Hd. unfold enc_l. destruct (enc_struct cenc l vs tv) as [b| |] eqn:Ee; try discriminate.
+    intros [= <-]. rewrite E. unfold dec_l.
+    pose proof (dec_enc_struct cwidth cenc cdec cindom cdec_total cenc_len c_roundtrip l vs tv b [] Hd) as H.
+    rewrite app_nil_r in H. rewrite H; [reflexivity| |exact Ee].
+    destruct (ltail l); exact I || reflexivity.
+  - intros Hd. destruct (mso_enc vs tv) as [b| |] eqn:Ee; try discriminate.
+    intros [= <-]. rewrite E. rewrite (mso_roundtrip vs tv b Hd Ee). reflexivity.
 Qed.
 
 (* C01, first half, whole frames, both modes: decode (encode p ++ anything) = p, consuming exactly
@@ -206,4 +257,5 @@ Example ex_nlp_frame :
   frame_encode Compressed (PV 37 [VN 1; VU] (TVRows [[VN 258; VN 3; VN 4; VN 1]])) = Ok [3; 37; 1; 1; 2; 1; 3; 0; 4; 1; 0; 0].
 Proof. vm_compute. reflexivity. Qed.
 Example ex_mst : pindom (PV 13 [VN 0; VU; VB [104; 105]] TVNone) = true. Proof. vm_compute. reflexivity. Qed.
+Example ex_mso : pindom (PV 11 [VN 0; VU; VN 1; VN 2; VN 1; VB [74; 252; 32]] (TVText [104; 105])) = true. Proof. vm_compute. reflexivity. Qed.
 Example ex_small : pindom (PV 4 [VN 0; VL [VN 1; VN 42949672950]] TVNone) = true. Proof. vm_compute. reflexivity. Qed.
